@@ -17,6 +17,7 @@
 
 import logging
 import sys
+from pathlib import Path
 from typing import IO, Optional, Type, cast
 
 from jinja2 import Environment, FileSystemLoader, Template
@@ -100,11 +101,17 @@ def add_header_to_file(
             )
             out.write("\n")
             path = _determine_license_suffix_path(path)
-            path.touch()
             comment_style = EmptyCommentStyle
 
-    with open(path, "r", encoding="utf-8", newline="") as fp:
-        text = fp.read()
+    try:
+        with open(path, "r", encoding="utf-8", newline="") as fp:
+            text = fp.read()
+    except FileNotFoundError:
+        # A .license file that does not exist yet. It is only created once
+        # there is a valid header to put into it.
+        if Path(path).suffix != ".license":
+            raise
+        text = ""
     # A byte order mark is not part of the text; it must remain the very first
     # character of the file.
     bom = ""
